@@ -24,6 +24,9 @@ func gen(r *sim.Rng, tier string) *sim.Case {
 	c.Params["dist"] = r.Pick(4, 2, 2, 2, 2, 2)
 	// bucket keys of this run
 	nb := r.Range(1, 5)
+	if r.Pct(5) {
+		nb = r.Range(6, 14)
+	}
 	var highs []int
 	for i := 0; i < nb; i++ {
 		if r.Pct(60) {
@@ -58,12 +61,15 @@ func gen(r *sim.Rng, tier string) *sim.Case {
 		case 3:
 			c.Ops = append(c.Ops, sim.Op{Op: "Len"})
 		case 4:
-			c.Ops = append(c.Ops, sim.Op{Op: "Enum", S: []string{"Iter", "Range", "All"}[r.N(3)], D: r.Pick(4, 1, 1) * r.Range(1, 5)})
+			c.Ops = append(c.Ops, sim.Op{Op: "Enum", S: []string{"Iter", "Range", "All"}[r.N(3)], D: enumStop(r)})
 		}
 		if heavy && r.Pct(12) {
 			cnt := []int{4095, 4096, 4097, 4098, 5000, 300}[r.N(6)]
 			if r.Pct(25) {
 				cnt = r.Range(1, 6000)
+			}
+			if r.Pct(4) {
+				cnt = r.Range(20000, 45000) // a really dense bucket
 			}
 			step := []int{1, 1, 2, 3, 15}[r.N(5)]
 			if step*cnt > 1<<16 {
@@ -89,6 +95,13 @@ func gen(r *sim.Rng, tier string) *sim.Case {
 	}
 	c.EnvSeed = r.U64() >> 12
 	return c
+}
+
+func enumStop(r *sim.Rng) int {
+	if r.Pct(10) {
+		return r.Range(100, 30000) // stop deep inside a big set
+	}
+	return r.Pick(4, 1, 1) * r.Range(1, 5)
 }
 
 func towerWords(dist int, seed uint64) func() uint64 {
